@@ -17,6 +17,7 @@ THEOREMS = ["C05_no_silent_corruption_partial", "C05_single_bit", "C05_crc_value
             "C05_crc_value_change_primary", "C05_content_window_primary", "C05_single_bit_primary",
             "C05_full_refuted", "C05_uncorrupted_passes", "C05_no_crc_passes", "C05_all_crcno_passes",
             "C05_crc16_detects_window", "C05_crc32c_detects_window", "C05_valid_block_even_parity"]
+RELEASE = True          # debug and release builds of the harness (debug_assert!, overflow checks, cfg(debug_assertions))
 RULE = ("CORR x<bytes>: bundles of the C01 domain with CRC-16 or CRC-32C on all blocks (0-3 extension blocks, small payloads, all EID "
         "forms, boundary-biased integers), encoded by the Python reference; per bundle EVERY single-bit flip of every block byte, every "
         "byte-aligned window start inside each block (2-byte windows for CRC-16 blocks: boundary patterns everywhere, all 65 535 "
@@ -184,6 +185,27 @@ def corruptions(rng, b, full=False, exhaustive_windows=0):
             nb = bytearray(ref)
             nb[e - w:e] = pat
             out.append(_line(nb, "V", k, lens, crcs))
+    # the receiver has just checked the GOOD copy (same thread), then sees the corrupted one: a verdict remembered by anything weaker
+    # than the block's content (length, a prefix, an additive or polynomial fingerprint h*m + byte) would be replayed.  Windows whose
+    # two bytes change by (+d, -m*d) keep every fingerprint of that family; plus a sample of the corruptions above.
+    good = out[0]
+    memo = []
+    for k, (s, e) in enumerate(spans):
+        w = 2 if crcs[k] == 1 else 4
+        for i in rng.sample(range(s + 1, e - w - 1), min(6, max(0, e - w - 2 - s))) if e - w - 2 > s else []:
+            a, b2 = ref[i], ref[i + 1]
+            for m in (1, 31, 33, 37, 131, 255, 256, 257):
+                for d in (1, -1, 2):
+                    na, nb2 = a + d, b2 - (m % 256) * d if m != 256 else b2
+                    if 0 <= na < 256 and 0 <= nb2 < 256 and (na, nb2) != (a, b2):
+                        x = bytearray(ref)
+                        x[i], x[i + 1] = na, nb2
+                        cls = _classify_change(ref, x, s, e, w)
+                        if cls:
+                            memo.append(_line(x, cls, k, lens, crcs))
+    sample = rng.sample(out[1:], min(40, len(out) - 1)) if len(out) > 1 else []
+    for l in memo + sample:
+        out.append("PAIR %s || %s" % (good, l))
     # all 65 535 replacement patterns of selected 2-byte windows (CRC-16 blocks): the CRC-type byte with its neighbours
     done = 0
     for k, (s, e) in reversed(list(enumerate(spans))):
